@@ -486,6 +486,34 @@ var versionPool = []struct{ full, short string }{
 	{"$CondorVersion: 10.0.1, Jan 01 2026 $", "10.0.1"},
 	{"$CondorVersion: unknown $", "$CondorVersion: unknown $"},
 	{"10.9", "10.9"},
+	{"25.4#0", "25.4#0"},                                     // '#': cannot be carried, mint must refuse
+	{"9.x;1", "9.x;1"},                                       // ';'
+	{`1";SessionExpires=5;X="`, `1";SessionExpires=5;X="`}, // would smuggle a second SessionExpires
+	{"$CondorVersion: 9.0.1;, x $", "9.0.1"},                 // trailing ";," is stripped: representable
+}
+
+// specShort: the documented short form of a version string, written from the doc comment of
+// shortVersion (no blank and no '$': unchanged; else the first blank-separated token that contains
+// a '.' and starts with a digit, without trailing ';' / ','; else unchanged).
+func specShort(full string) string {
+	if !strings.ContainsAny(full, " $") {
+		return full
+	}
+	for _, tok := range strings.Fields(full) {
+		if strings.Contains(tok, ".") && tok[0] >= '0' && tok[0] <= '9' {
+			return strings.TrimRight(tok, ";,")
+		}
+	}
+	return full
+}
+
+// unrepresentable: a cipher list / version that cannot be carried inside a claim id: '#' ends the
+// session id, ';' ends an attribute, '.' is the in-claim list delimiter.
+func unrepresentable(crypto, version string) bool {
+	if crypto == "" {
+		crypto = "AES"
+	}
+	return strings.ContainsAny(crypto, "#;.") || (version != "" && strings.ContainsAny(specShort(version), "#;"))
 }
 
 func shortOf(full string) (string, bool) {
@@ -549,7 +577,7 @@ func runScenario(sc scenario, out sink, rnd func(int) int) (fails []fail) {
 		}
 		return o.Crypto
 	}(), ",", 2)[0])
-	wantErr := o.Sinful == "" || (first != "AES" && first != "AESGCM")
+	wantErr := o.Sinful == "" || (first != "AES" && first != "AESGCM") || unrepresentable(o.Crypto, o.Version)
 	out.OracleCheck()
 	if err != nil {
 		out.AddCase(fmt.Sprintf("(CMint %s %s %s %s %s None)", o.term(), hx("00"), core.Z(0), core.Z(lo), core.Z(hi)), desc)
@@ -677,7 +705,8 @@ func runScenario(sc scenario, out sink, rnd func(int) int) (fails []fail) {
 	// expiry: SessionExpires in the text, in the policy and on the entry are one absolute time
 	out.OracleCheck()
 	if o.LifeNs > 0 {
-		eLo, eHi := (lo+o.LifeNs)/1e9, (hi+o.LifeNs)/1e9
+		addSecs := func(now, d int64) int64 { return now/1e9 + d/1e9 + (now%1e9+d%1e9)/1e9 } // no int64 overflow
+		eLo, eHi := addSecs(lo, o.LifeNs), addSecs(hi, o.LifeNs)
 		if sessExp < eLo || sessExp > eHi {
 			bad("expiry-text", "SessionExpires in the claim text is %d, want now+lifetime in [%d,%d]", sessExp, eLo, eHi)
 		}
@@ -866,6 +895,39 @@ func runScenario(sc scenario, out sink, rnd func(int) int) (fails []fail) {
 		}
 	}
 
+	// insertions and deletions (not same-length, so outside C16_corrupted_secret): refused, or the
+	// key of exactly what an independent splitter takes as the secret; the minter's key only if that
+	// still is the minted secret (a delimiter inserted in front of it)
+	for i := 0; i <= npos; i++ {
+		var muts []string
+		if i < npos {
+			muts = append(muts, claim[:base+i]+claim[base+i+1:])
+		}
+		for _, ins := range []byte{otherHex('0', rnd(16)), ']', '#', ' '} {
+			muts = append(muts, claim[:base+i]+string(ins)+claim[base+i:])
+		}
+		for _, cclaim := range muts {
+			C := security.NewSessionCache()
+			out.OracleCheck()
+			csid, err := security.ImportClaimSession(C, cclaim, security.ClaimSessionOptions{})
+			if err != nil {
+				continue
+			}
+			eC, ok := security.VerifC16Entry(C, csid)
+			if !ok || eC.KeyInfo() == nil {
+				continue
+			}
+			out.Count("corrupt-indel")
+			_, _, ckey, cok := specSplit(cclaim)
+			if !cok || !bytes.Equal(eC.KeyInfo().Data, specHKDF([]byte(ckey), 32)) {
+				bad("corrupt-secret-key-not-hkdf", "importer of %q (an insertion/deletion in the secret) does not hold HKDF(its own secret %q)", cclaim, ckey)
+			}
+			if ckey != secret && bytes.Equal(eC.KeyInfo().Data, obsA.Key) {
+				bad("corrupt-secret-same-key", "claim %q with an insertion/deletion in the secret still derives the minter's key", cclaim)
+			}
+		}
+	}
+
 	if !sc.Hs {
 		return
 	}
@@ -952,15 +1014,26 @@ func runSeq(out sink, desc interface{}, steps []seqStep, id string, secrets ...s
 	hi := time.Now().UnixNano()
 	e, ok := security.VerifC16Entry(S, id)
 	head := fmt.Sprintf("(CSeq %s %s %s %s ", seqTerm(steps), hx(id), core.Z(lo), core.Z(hi))
+	cm := security.VerifC16CommandMap(S)
+	cks := make([]string, 0, len(cm))
+	for k := range cm {
+		cks = append(cks, k)
+	}
+	sort.Strings(cks)
+	pairs := make([]string, len(cks))
+	for i, k := range cks {
+		pairs[i] = "(" + hx(k) + ", " + hx(cm[k]) + ")"
+	}
+	tailT := " " + core.List(pairs) + ")"
 	if !ok {
-		out.AddCase(wrap(head+"None)"), desc)
+		out.AddCase(wrap(head+"None"+tailT), desc)
 		return S, entryObs{}, false
 	}
 	obs, err := observeEntry(e)
 	if err != nil {
 		return S, entryObs{}, false
 	}
-	out.AddCase(wrap(head+"(Some "+obs.term(secrets...)+"))"), desc)
+	out.AddCase(wrap(head+"(Some "+obs.term(secrets...)+")"+tailT), desc)
 	out.Count("one-cache-sequences")
 	return S, obs, true
 }
@@ -1041,7 +1114,9 @@ func oneCacheSequences(sc scenario, out sink, rnd func(int) int, claim, secret, 
 
 	// (c) re-issue of the same session id: new secret, later expiry
 	o2 := o
-	if o2.LifeNs > 0 {
+	if o2.LifeNs > math.MaxInt64/2 {
+		o2.LifeNs -= int64(2 * time.Hour)
+	} else if o2.LifeNs > 0 {
 		o2.LifeNs += int64(2 * time.Hour)
 	} else {
 		o2.LifeNs = int64(3 * time.Hour)
@@ -1076,6 +1151,40 @@ func oneCacheSequences(sc scenario, out sink, rnd func(int) int, claim, secret, 
 				if e5, ok5 := security.VerifC16Entry(S5, sid); !ok5 || e5.KeyInfo() == nil || !bytes.Equal(e5.KeyInfo().Data, specHKDF([]byte(secret5), 32)) {
 					bad("seq-mint-stale", "MintClaimSession into a cache already holding %q did not file the newly minted session", sid)
 				}
+			}
+		}
+	}
+
+	// (f) the same claim imported again under another peer address / tag / command set: only the
+	// last import's mappings may point at the session (Store drops those of the entry it replaces)
+	io1 := impOpts{PeerAddr: "<10.9.9.1:9618>", Extra: []int{443, 60021}}
+	io2 := impOpts{PeerAddr: "<10.9.9.2:9618>", Tag: "t2", Extra: []int{444}}
+	S6, _, ok6 := runSeq(out, sc, []seqStep{{false, claim, io1}, {false, claim, io2}}, sid, secret)
+	out.OracleCheck()
+	if ok6 {
+		for k, v := range security.VerifC16CommandMap(S6) {
+			if v == sid && strings.Contains(k, io1.PeerAddr) {
+				bad("seq-stale-command-mapping", "after re-importing %q under another address the mapping %q of the replaced entry still points at it", sid, k)
+			}
+		}
+		if security.VerifC16CommandMap(S6)[fmt.Sprintf("{t2,%s,<444>}", io2.PeerAddr)] != sid {
+			bad("seq-command-mapping-missing", "the re-imported session is not found by its new {tag,addr,<cmd>}")
+		}
+	}
+	// a second session id in the same cache keeps its own mappings, except a key the new import claims
+	if err == nil && mc2 != nil {
+		ob := o
+		ob.Seq = o.Seq + 1
+		if mb, errb := security.MintClaimSession(security.NewSessionCache(), ob.real()); errb == nil {
+			_, _, secretB, _ := specSplit(mb.ClaimID())
+			ioB := impOpts{PeerAddr: io1.PeerAddr, Extra: []int{443, 500}}
+			S7, _, _ := runSeq(out, sc, []seqStep{{false, mb.ClaimID(), ioB}, {false, claim, io1}}, mb.SessionID(), secretB, secret)
+			out.OracleCheck()
+			m7 := security.VerifC16CommandMap(S7)
+			k500 := fmt.Sprintf("{%s,<500>}", io1.PeerAddr)
+			k443 := fmt.Sprintf("{%s,<443>}", io1.PeerAddr)
+			if m7[k500] != mb.SessionID() || m7[k443] != sid {
+				bad("seq-command-mapping-other-id", "two sessions in one cache: {addr,<500>} -> %q (want %q), {addr,<443>} -> %q (want %q)", m7[k500], mb.SessionID(), m7[k443], sid)
 			}
 		}
 	}
@@ -1280,20 +1389,32 @@ func (p polIn) ad() *classad.ClassAd {
 func exportCase(c *core.Ctx, p polIn) error {
 	desc := map[string]interface{}{"kind": "export", "policy": p}
 	info, err := security.ExportSecSessionInfo(p.ad())
+	// what cannot be carried inside a claim id must be refused, everything else rendered
+	mustRefuse := false
+	for _, a := range p.Attrs {
+		if a.Kind != "s" || a.S == "" {
+			continue
+		}
+		switch a.Name {
+		case "Integrity", "Encryption", "ValidCommands":
+			mustRefuse = mustRefuse || strings.ContainsAny(a.S, "#;")
+		case "CryptoMethods":
+			mustRefuse = mustRefuse || strings.ContainsAny(a.S, "#;.")
+		case "RemoteVersion":
+			mustRefuse = mustRefuse || strings.ContainsAny(specShort(a.S), "#;")
+		}
+	}
+	c.OracleCheck()
 	if err != nil {
 		c.AddCase(fmt.Sprintf("(CExport %s None)", policyTerm(p.Attrs)), desc)
 		c.Count("export-error")
-		hash := false
-		for _, a := range p.Attrs {
-			if a.Kind == "s" && strings.Contains(a.S, "#") {
-				hash = true
-			}
-		}
-		c.OracleCheck()
-		if !hash {
-			c.OracleFail("export-refused", fmt.Sprintf("ExportSecSessionInfo refused a policy without '#': %v", err), desc)
+		if !mustRefuse {
+			c.OracleFail("export-refused", fmt.Sprintf("ExportSecSessionInfo refused a policy every value of which can be carried in a claim id: %v", err), desc)
 		}
 		return nil
+	}
+	if mustRefuse {
+		c.OracleFail("export-accepted-unrepresentable", fmt.Sprintf("ExportSecSessionInfo rendered %q from a policy with a value that cannot be carried in a claim id", info), desc)
 	}
 	c.AddCase(fmt.Sprintf("(CExport %s (Some %s))", policyTerm(p.Attrs), hx(info)), desc)
 	c.Count("export-ok")
@@ -1307,11 +1428,6 @@ func exportCase(c *core.Ctx, p polIn) error {
 
 // roundTripOracle returns a description of the failure, "" if the property holds (or does not apply).
 func roundTripOracle(p polIn, info string) string {
-	for _, a := range p.Attrs {
-		if a.Kind == "s" && strings.ContainsAny(a.S, ";") {
-			return "" // outside the documented alphabet of a session_info value
-		}
-	}
 	if strings.Contains(info, "#") || len(info) < 2 || info[0] != '[' || info[len(info)-1] != ']' {
 		return fmt.Sprintf("exported info %q is not a bracketed '#'-free block", info)
 	}
@@ -1335,7 +1451,7 @@ func roundTripOracle(p polIn, info string) string {
 			return fmt.Sprintf("%s: exported %q (present=%v), imported %q (present=%v) via %q", n, want, has, got, gok, info)
 		}
 	}
-	if a, ok := src["CryptoMethods"]; ok && a.Kind == "s" && a.S != "" && !strings.Contains(a.S, ".") {
+	if a, ok := src["CryptoMethods"]; ok && a.Kind == "s" && a.S != "" {
 		if got, gok := get("CryptoMethods"); !gok || got != a.S {
 			return fmt.Sprintf("CryptoMethods: exported %q, imported %q via %q", a.S, got, info)
 		}
@@ -1352,8 +1468,8 @@ func roundTripOracle(p polIn, info string) string {
 			}
 		}
 	}
-	if a, ok := src["RemoteVersion"]; ok && a.Kind == "s" {
-		if sv, known := shortOf(a.S); known && sv != "" {
+	if a, ok := src["RemoteVersion"]; ok && a.Kind == "s" && a.S != "" {
+		if sv := specShort(a.S); true {
 			if got, gok := get("RemoteVersion"); !gok || got != sv {
 				return fmt.Sprintf("RemoteVersion %q: imported %q, want %q via %q", a.S, got, sv, info)
 			}
@@ -1536,8 +1652,9 @@ var sinfuls = []string{
 	"startd#[x]y", // not a sinful at all: the grammar must still split on the last '#'
 	"a]b#[c",
 }
-var cryptos = []string{"", "AES", "AES,BLOWFISH", "AES, 3DES, BLOWFISH", "AESGCM", "AESGCM,AES", " AES ,X", "BLOWFISH", "BLOWFISH,AES", "aes", ",AES"}
-var lifetimes = []int64{0, int64(time.Hour), int64(time.Second), int64(500 * time.Millisecond), 1, -int64(time.Second), int64(400 * 24 * time.Hour)}
+var cryptos = []string{"", "AES", "AES,BLOWFISH", "AES, 3DES, BLOWFISH", "AESGCM", "AESGCM,AES", " AES ,X", "BLOWFISH", "BLOWFISH,AES", "aes", ",AES",
+	"AES,X.Y", "AES,X;Y", `AES,X";Encryption="NO`, "AES,X#Y"}
+var lifetimes = []int64{0, int64(time.Hour), int64(time.Second), int64(500 * time.Millisecond), 1, -int64(time.Second), int64(400 * 24 * time.Hour), math.MaxInt64}
 var valids = [][]int{nil, {443}, {443, 444, 60021}, {404, -1, 0}}
 var toggles = [][2]*bool{{nil, nil}, {bp(true), bp(true)}, {bp(false), bp(true)}, {bp(true), bp(false)}, {bp(false), bp(false)}, {nil, bp(false)}}
 
@@ -1554,6 +1671,9 @@ func scenarioAt(c *core.Ctx, i int) scenario {
 	}
 	t := toggles[(i/7)%len(toggles)]
 	o.Enc, o.Integ = t[0], t[1]
+	if i%53 == 17 {
+		o.Sinful = "" // refused
+	}
 	if r.Intn(3) == 0 {
 		o.PeerAddr = "<10.0.0.9:9618?sock=schedd_1_2>"
 		if r.Intn(2) == 0 {
@@ -1892,7 +2012,7 @@ func replay(raw json.RawMessage) error {
 		info, err := security.ExportSecSessionInfo(k.Policy.ad())
 		if err != nil {
 			for _, a := range k.Policy.Attrs {
-				if a.Kind == "s" && strings.Contains(a.S, "#") {
+				if a.Kind == "s" && strings.ContainsAny(a.S, "#;.") {
 					return nil
 				}
 			}
